@@ -10,7 +10,7 @@ python3 - $WT.ev <<'PY'
 import json,glob,sys
 fs=sorted(glob.glob(sys.argv[1]+'/replay/*.json'))
 if fs:
-    r=json.load(open(fs[0])); rp=r.get('replay') or {}
+    r=json.load(open(fs[0])); rp=r.get("replay") or {}; print("WHAT:", r["what"][:1500])
     for k in ('history','run','ops','lines'):
         if isinstance(rp,dict) and k in rp:
             for e in rp[k][-45:]: print(json.dumps(e)[:330])
